@@ -213,6 +213,30 @@ func TestReplayVerif(t *testing.T) {
 `,
 		}
 	}
+	replayDrivers["zap.Duration"] = &replayDriver{
+		pkg: ".",
+		terms: func(c *Ctx) (map[string]string, bool) {
+			v := c.paramConst("val")
+			return map[string]string{"Val": v}, v != ""
+		},
+		tmpl: `package zap
+
+import (
+	"testing"
+	"time"
+
+	"go.uber.org/zap/zapcore"
+)
+
+func TestReplayVerif(t *testing.T) {
+	val := time.Duration(int64({{.Val}}))
+	f := Duration("k", val)
+	if f.Key != "k" || f.Type != zapcore.DurationType || f.Integer != int64(val) || f.String != "" || f.Interface != nil {
+		t.Fatalf("REPLAY-VIOLATION Duration(k, %d) = %+v, want Type DurationType and Integer %d", int64(val), f, int64(val))
+	}
+}
+`,
+	}
 	replayDrivers["zapcore.fnv32a"] = &replayDriver{
 		pkg:   "zapcore",
 		terms: func(c *Ctx) (map[string]string, bool) { return map[string]string{}, true },
